@@ -144,3 +144,13 @@ Proof.
   - rewrite Z.mul_pow2_bits by lia. rewrite Z.mod_pow2_bits_low by lia.
     rewrite (testbit_high (x / 2 ^ (w - r)) r i) by lia. apply orb_false_r.
 Qed.
+
+(* the three statements together, as Properties.v states them *)
+Lemma rot_all w : W w -> forall x s, 0 <= x < 2 ^ w ->
+  rotl_m w x s = Ok (rotl_spec w x s) /\ rotr_m w x s = Ok (rotr_spec w x s)
+  /\ (forall i, 0 <= i < w -> Z.testbit (rotl_spec w x s) i = Z.testbit x ((i - s) mod w)).
+Proof.
+  intros HW x s Hx. pose proof (W_pos w HW) as Hp.
+  split; [now apply rotl_ok | split; [now apply rotr_ok |]].
+  intros i Hi. apply rotl_spec_bits; lia.
+Qed.
